@@ -1,6 +1,7 @@
 SPECIFICATION Spec
 CONSTANTS
   Depth = 5
+  LeafReadOnly = TRUE
   BlockLits = {"B0", "B1"}
   CatLits = {"C2", "C3"}
   ColLits = {"x", "zz"}
